@@ -48,8 +48,8 @@ type recorded interface {
 type recProvider struct{ recBase }
 
 func (*recProvider) Run(context.Context, core.ProviderDeps) error { return nil }
-func (*recProvider) Acquire() (core.Ammo, bool)                    { return nil, false }
-func (*recProvider) Release(core.Ammo)                             {}
+func (*recProvider) Acquire() (core.Ammo, bool)                   { return nil, false }
+func (*recProvider) Release(core.Ammo)                            {}
 
 type recAggregator struct{ recBase }
 
@@ -59,7 +59,7 @@ func (*recAggregator) Report(core.Sample)                             {}
 type recGun struct{ recBase }
 
 func (*recGun) Bind(core.Aggregator, core.GunDeps) error { return nil }
-func (*recGun) Shoot(core.Ammo)                           {}
+func (*recGun) Shoot(core.Ammo)                          {}
 
 type recSchedule struct{ recBase }
 
